@@ -2184,6 +2184,10 @@ class PyCdlib:
         for sec in self.eltorito_boot_catalog.sections:
             for entry in sec.section_entries:
                 entries_to_assign.append(entry)
+        # (Some ISOs have entries that follow the initial entry without a
+        # section header; they boot files like any other entry.)
+        for entry in self.eltorito_boot_catalog.standalone_entries:
+            entries_to_assign.append(entry)
 
         for entry in entries_to_assign:
             entry_extent = entry.get_rba()
